@@ -417,9 +417,10 @@ def run_pass(world, pspec, vector):
             sched.atomic[k] -= 1
             sched.op_end(k, i)
 
+    sched.unblock_after_s = float(sch.get("unblock_after_s", 8.0))
     stall = None
     try:
-        sched.run(body, watchdog_s=pspec.get("watchdog_s", 45.0))
+        sched.run(body, watchdog_s=pspec.get("watchdog_s", 90.0))
     except Stall as e:
         stall = str(e)
 
@@ -450,7 +451,7 @@ def run_pass(world, pspec, vector):
         "stats": stats,
         "sched": {"digest": sched.digest(), "points": sched.npoints, "switches": sched.nswitch,
                   "switches_inop": sched.nswitch_inop, "capped": sched.capped, "quiescent": sched.nquiescent,
-                  "diverged": policy.diverged},
+                  "diverged": policy.diverged, "unblocked": sched.unblocked},
         "errors": list(sched.errors),
         "stall": stall,
         "lib_calls": faults.counters.lib_calls,
